@@ -47,12 +47,37 @@ def build_executor(case):
     raise ValueError(mode)
 
 
+LEAK = []
+
+
+def snapshot(ctl, op_index, op):
+    """state right after a shutdown / exit operation returned or raised (read without points)"""
+    return {"op_index": op_index, "op": list(op), "step": len(ctl.log),
+            "futs": {str(f.fid): f.obs() for f in ctl.futures},
+            "procs_alive": [p.name for p in ctl.procs if p.alive()],
+            "threads_live": [n for n, e in ctl.ents.items() if n[0] in "WDRF" and e.state not in ("done", "killed")]}
+
+
+def value_repr(f):
+    """full Herbrand value of a finished future, nested tuples as lists"""
+    from concurrent.futures import Future as _F
+    if _F.cancelled(f) or not _F.done(f) or _F.exception(f, timeout=0) is not None:
+        return None
+
+    def conv(v):
+        if isinstance(v, (list, tuple)):
+            return [conv(x) for x in v]
+        return v
+    return conv(_F.result(f, timeout=0))
+
+
 def run_case(case):
     import sim
     ctl = sim.install(case.get("schedule", []), case.get("step_limit", 3000))
     calls = case["calls"]
     futs = {}
     outcomes = []
+    snaps = []
 
     def program():
         ex = None
@@ -89,16 +114,25 @@ def run_case(case):
                     except BaseException as e:  # noqa
                         if isinstance(e, sim.StopSim):
                             raise
+                        # do not let the caught exception's traceback keep this frame (and with it
+                        # the executor) alive: the exception object is stored in the future
+                        e.__traceback__ = None
                         from concurrent.futures import Future as _F
                         if _F.cancelled(futs[op[1]]):
                             outcomes.append(["result", op[1], "cancelled"])
                         else:
                             outcomes.append(["result", op[1], "exc:" + type(e).__name__])
                 elif kind == "shutdown":
-                    ex.shutdown(wait=op[1], cancel_futures=op[2])
+                    try:
+                        ex.shutdown(wait=op[1], cancel_futures=op[2])
+                    finally:
+                        snaps.append(snapshot(ctl, len(outcomes), op))
                     outcomes.append(["shutdown", "ok"])
                 elif kind == "exit":
-                    ex.__exit__(None, None, None)
+                    try:
+                        ex.__exit__(None, None, None)
+                    finally:
+                        snaps.append(snapshot(ctl, len(outcomes), op))
                     outcomes.append(["exit", "ok"])
                 elif kind == "drop":
                     ex = None
@@ -107,6 +141,11 @@ def run_case(case):
                 raise
             except Exception as e:  # noqa
                 outcomes.append([kind] + list(op[1:2]) + ["raise:" + type(e).__name__])
+                if kind in ("shutdown", "exit"):
+                    # a shutdown that re-raised a worker's exception: the traceback stored in the
+                    # thread object keeps the executor alive (no __del__); made explicit here so
+                    # that it does not depend on what later clears tracebacks
+                    LEAK.append(ex)
         outcomes.append(["end"])
 
     m = ctl.register("M")
@@ -130,7 +169,9 @@ def run_case(case):
         "verdict": ctl.verdict,
         "trace": [[en, pick, list(lab)] for en, pick, lab in ctl.log],
         "outcomes": outcomes,
+        "snaps": snaps,
         "futures": {str(f.fid): f.obs() for f in ctl.futures},
+        "values": {str(f.fid): value_repr(f) for f in ctl.futures},
         "ents": {n: [e.state, e.exc] for n, e in ctl.ents.items()},
         "procs": {p.name: {"alive": p.alive(), "script": p.script, "cwd": p.cwd, "argv": p.args} for p in ctl.procs},
         "queues": [{"qid": q.qid, "unf": q.unf, "items": [sim.item_desc(i) for i in q.items]} for q in ctl.queues],
